@@ -588,6 +588,24 @@ pub fn generate(seed: u64, case: u64, max_steps: usize) -> Ran {
                 continue;
             }
         }
+        // a grant used through mixed batches: a permitted distribution / staking message first, then the bank send, twice,
+        // with amounts that fit once but not twice
+        if subkeys && !cur.admins.is_empty() && cur.admins[0] < n && r.chance(1, 20) {
+            let adm = cur.admins[0];
+            let fresh: Vec<usize> = (0..n).filter(|u| *u != adm && !cur.admins.contains(u) && !cur.stored.iter().any(|x| x.0 == *u)).collect();
+            if !fresh.is_empty() {
+                let g = *r.pick(&fresh);
+                let d = r.below(3) as usize;
+                let a = 4 + r.below(20) as u128;
+                let first = if r.chance(1, 2) { CMsg::SetWithdraw } else { CMsg::Delegate };
+                let batch = vec![first, CMsg::BankSend { to: any, coins: vec![(d, Uint128::new(a / 2 + 1))] }];
+                pending.push_back(Step { h, t, s: adm, op: Op::Inc { sp: Arg::Id(g), c: (d, Uint128::new(a)), e: None } });
+                pending.push_back(Step { h, t, s: adm, op: Op::SetPerm { sp: Arg::Id(g), p: Perm { d: true, r: false, u: false, w: true } } });
+                pending.push_back(Step { h, t, s: g, op: Op::Execute { msgs: batch.clone() } });
+                pending.push_back(Step { h, t, s: g, op: Op::Execute { msgs: batch } });
+                continue;
+            }
+        }
         let admin = if !cur.admins.is_empty() && cur.admins[0] < n { cur.admins[r.below(cur.admins.len() as u64) as usize] } else { any };
         let admin = if admin < n { admin } else { any };
         let grantee: Option<(usize, Al)> = if cur.stored.is_empty() { None } else { Some(r.pick(&cur.stored).clone()) };
